@@ -355,6 +355,11 @@ def run(ctx: Any, prog: Program) -> None:
             break
         skips = [x for x in ast.walk(lp9) if isinstance(x, (ast.Continue, ast.Break))]
         for sk in skips:
+            # `file.write(<the helper in its special form>); continue` is another way of writing the helper, not a skip
+            hold9 = fgd.parents.get(sk)
+            blk9 = next((getattr(hold9, f_) for f_ in ('body', 'orelse') if isinstance(getattr(hold9, f_, None), list) and sk in getattr(hold9, f_)), [])
+            if any(isinstance(c_, ast.Call) and isinstance(c_.func, ast.Attribute) and c_.func.attr in ('write', 'writelines') for st_ in blk9[:blk9.index(sk)] for c_ in ast.walk(st_)):
+                continue
             tests = [a.test for a in _anc16(fgd, sk, lp9) if isinstance(a, ast.If)]
             conj = [v for t in tests for v in (t.values if isinstance(t, ast.BoolOp) and isinstance(t.op, ast.And) else [t])]
             documented = any(isinstance(v, ast.UnaryOp) and isinstance(v.op, ast.Not) and dotted(v.operand) == 'custom_syntax' for v in conj) and any(isinstance(v, ast.Attribute) and v.attr == 'IS_EXTENSION' for v in conj)
